@@ -32,7 +32,7 @@ COMPONENTS = {
 }
 ASSUMPTIONS = [
     "metrics are compared with float64 recomputation at 1e-5 relative (float32 reductions); std accepts either normalisation; a 1-element tensor's std may be nan",
-    "one fixed input signature per tracked module: a signature change makes Dynamo compile a second graph and scales_graph() then legitimately shows the most recently compiled one",
+    "one compiled graph per tracked module: a change of input signature or of grad mode (torch.no_grad) makes TorchDynamo compile a second graph and scales_graph() shows the most recently *compiled* one, which need not be the one that ran last (observed: history [backward run, no_grad run, backward run] reports the no_grad graph); this is noted in DESIGN.md as an observation, the property quantifies over forward-only and forward+backward runs of one graph",
     "the numbers printed by analyse_module carry 3 significant digits: compared at 6e-3 relative",
     "analyse_module leaves .grad populated on parameters and inputs (it calls backward()); logged as an observation, values and gradients *produced* afterwards are what is compared",
     "seeded search: a clean batch is evidence, not proof",
@@ -75,7 +75,7 @@ def generate(seed: int, tier: str, phase: str) -> Dict[str, Any]:
             ops.append({"op": "analyse", "k": r.randrange(3), "gseed": r.randrange(4)})
         plan["ops"] = ops
         return plan
-    kinds = ["bwd", "bwd", "fwd", "bwd_subset", "reset"]
+    kinds = ["bwd", "bwd", "fwd", "bwd_subset", "reset"]  # no torch.no_grad() runs: a grad-mode switch compiles a second graph (see ASSUMPTIONS)
     for _ in range(r.choice([2, 3, 4, 5, 6])):
         k = r.choice(kinds)
         if k == "reset":
@@ -308,17 +308,20 @@ def _track(plan: Dict[str, Any], spec: Dict[str, Any], original: Any, inputs: An
             res["opseq"].append("reset")
             continue
         mode = op["mode"]
-        bwd = mode != "fwd"
+        bwd = mode not in ("fwd", "nograd")
+        ng = mode == "nograd"
         mask = op["mask"] if mode == "bwd_subset" else None
         obs["fwd"], obs["bwd"], obs["is_float"] = {}, {}, {}
         obs["args"], obs["handed_on"], obs["aliased"] = [], {}, []
         g0 = obs["graphs"]
         try:
-            got = tw.run(tracked, tracked, tw.clone_inputs(inputs[op["k"]]), op["gseed"], backward=bwd, out_mask=mask)
+            got = tw.run(tracked, tracked, tw.clone_inputs(inputs[op["k"]]), op["gseed"], backward=bwd, out_mask=mask,
+                         no_grad=ng)
         except Exception as e:
             raise Violation("observational", "tracked_call_raised", f"{type(e).__name__}: {str(e)[:400]} {where}")
         # (a) purely observational: bit-identical to the unwrapped module
-        want = tw.run(original, original, tw.clone_inputs(inputs[op["k"]]), op["gseed"], backward=bwd, out_mask=mask)
+        want = tw.run(original, original, tw.clone_inputs(inputs[op["k"]]), op["gseed"], backward=bwd, out_mask=mask,
+                      no_grad=ng)
         d = tw.diff(got, want)
         if d:
             tol = plan.get("rounding_tol")
